@@ -1,0 +1,27 @@
+//go:build verif
+
+// Read-only verification hook (add-only; compiled only with -tags verif): exposes the unexported
+// generic sampling functions with an injectable random source, so that the C19 harness can record
+// the draws of one run (Float64 / Intn / Shuffle swaps) and compare the result with the Coq model
+// (coq/theories/Pure/Rand.v) evaluated on exactly those draws.
+//
+package xrand
+
+import "github.com/bradenaw/juniper/iterator"
+
+// VerifRand is the method set the sampling functions draw from (the unexported randRand).
+type VerifRand interface {
+	Float64() float64
+	Intn(int) int
+	Shuffle(int, func(int, int))
+}
+
+func VerifRSample(r VerifRand, n int, k int) []int { return rSample(r, n, k) }
+
+func VerifRSampleSlice(r VerifRand, a []int, k int) []int { return rSampleSlice(r, a, k) }
+
+func VerifRSampleIterator(r VerifRand, iter iterator.Iterator[int], k int) []int {
+	return rSampleIterator(r, iter, k)
+}
+
+func VerifRShuffle(r VerifRand, a []int) { rShuffle(r, a) }
